@@ -4,10 +4,22 @@ use crate::monitor::event::EventType;
 use crate::monitor::MonitorConfig;
 use crate::thread::recovery::{PanicMarker, RecoveryThread};
 
+#[cfg(not(humphrey_verif))]
 use std::sync::mpsc::{channel, Receiver, Sender};
+#[cfg(humphrey_verif)]
+use humsim::sync::mpsc::{channel, Receiver, Sender};
+#[cfg(not(humphrey_verif))]
 use std::sync::{Arc, Mutex};
+#[cfg(humphrey_verif)]
+use humsim::sync::{Arc, Mutex};
+#[cfg(not(humphrey_verif))]
 use std::thread::{Builder, JoinHandle};
+#[cfg(humphrey_verif)]
+use humsim::thread::{Builder, JoinHandle};
+#[cfg(not(humphrey_verif))]
 use std::time::Instant;
+#[cfg(humphrey_verif)]
+use humsim::time::Instant;
 
 /// The number of milliseconds a task can be waiting in the pool before the pool is considered overloaded.
 const OVERLOAD_THRESHOLD: u128 = 100;
